@@ -201,7 +201,14 @@ def main(n: int = 16) -> int:
     r = subprocess.run(["lake", "env", "lean", path], cwd=core.LEAN_DIR, capture_output=True, text=True)
     os.remove(path)
     errs = [ln for ln in (r.stdout + r.stderr).splitlines() if "error" in ln]
-    res = {"samples": len(meta), "confirmed": r.returncode == 0, "errors": errs[:5], "cases": meta[:6],
+    # only a `decide` that evaluated the proposition to `false` is a refutation; anything else (missing object file,
+    # time-out, elaboration error, recursion depth) is an infrastructure failure and never a verdict
+    refuted = [ln for ln in errs if "decide" in ln.lower() or "is false" in ln.lower()]
+    full = r.stdout + r.stderr
+    if r.returncode != 0 and "is false" not in full:
+        print(json.dumps({"infra_error": (errs[:5] or [full[-600:]])}))
+        return 2
+    res = {"samples": len(meta), "confirmed": r.returncode == 0, "errors": (refuted or errs)[:5], "cases": meta[:6],
            "what": "Lean kernel (`by decide`, no compiled code) confirms model outcome = implementation outcome on these inputs"}
     if r.returncode != 0:
         res["lean_file_excerpt"] = "\n".join(out)[:3000]
